@@ -47,7 +47,8 @@ Parts(x) ==
        \* what was parsed is still what was written after the library has used it: a client was built from the cache and destroyed,
        \* a second client was built from it afterwards and sees the same sessions and tickets
        \cup (IF x.credsAfter = x.creds THEN {} ELSE {<<"changed_by_use", 0>>})
-       \cup (IF x.client2 = x.client THEN {} ELSE {<<"second_client_differs", 0>>})
+       \* (the wording of an error is not compared: encoding/asn1 prints the address of a field descriptor in it)
+       \cup (IF [x.client2 EXCEPT !.errmsg = ""] = [x.client EXCEPT !.errmsg = ""] THEN {} ELSE {<<"second_client_differs", 0>>})
 Init == LT!Init
 Next == LT!Next
 Check == ~LT!Active \/ LET ps == Parts(Tr[l]) IN
